@@ -1,5 +1,4 @@
 import numbers
-import ctypes
 from enum import Enum
 from abc import abstractmethod
 from dataclasses import dataclass, replace as dataclass_replace
@@ -697,8 +696,35 @@ class BinaryOp(Expr):
                 'non-primitive values')
 
     def _eval_numeric(self):
-        left = self.type.coerce(self.left.eval())
-        right = self.type.coerce(self.right.eval())
+        # Evaluate the way the generated code does at run time: convert
+        # both operands to the type the operation is performed in,
+        # apply the operator, and make sure the result fits in the
+        # type of the expression. Anything that would be a run-time
+        # error raises OverflowError or ZeroDivisionError here, so that
+        # the expression is left alone and fails at run time.
+        if self.op.is_comparison:
+            # operands are compared in the wider of their two types
+            for op_type in (Type.DOUBLE, Type.SINGLE, Type.LONG):
+                if op_type in (self.left.type, self.right.type):
+                    break
+            else:
+                op_type = Type.INTEGER
+        else:
+            # arithmetic is performed in the type of the result;
+            # MOD, integer division and the logical operators in
+            # INTEGER or LONG, which is also their result type.
+            op_type = self.type
+
+        def convert(value):
+            if op_type.is_integral and isinstance(value, float):
+                # raises OverflowError for infinity
+                value = round(value)
+            if not op_type.can_hold(value):
+                raise OverflowError
+            return op_type.coerce(value)
+
+        left = convert(self.left.eval())
+        right = convert(self.right.eval())
 
         def qbool(x):
             return -1 if x else 0
@@ -713,21 +739,6 @@ class BinaryOp(Expr):
             r = abs(a) % abs(b)
             return -r if a < 0 else r
 
-        def limit(x):
-            if not self.left.type.is_integral:
-                return x
-
-            c_type = {
-                Type.INTEGER: ctypes.c_short,
-                Type.LONG: ctypes.c_long,
-                Type.SINGLE: ctypes.c_float,
-                Type.DOUBLE: ctypes.c_double,
-            }[self.type]
-            result = c_type(x).value
-            if result != x:
-                raise OverflowError
-            return result
-
         result = {
             Operator.CMP_EQ: lambda a, b: qbool(a == b),
             Operator.CMP_NE: lambda a, b: qbool(a != b),
@@ -735,24 +746,40 @@ class BinaryOp(Expr):
             Operator.CMP_GT: lambda a, b: qbool(a > b),
             Operator.CMP_LE: lambda a, b: qbool(a <= b),
             Operator.CMP_GE: lambda a, b: qbool(a >= b),
-            Operator.AND: lambda a, b: limit(a & b),
-            Operator.OR: lambda a, b: limit(a | b),
-            Operator.XOR: lambda a, b: limit(a ^ b),
-            Operator.EQV: lambda a, b: limit(~(a ^ b)),
-            Operator.IMP: lambda a, b: limit(~a | b),
-            Operator.ADD: lambda a, b: limit(a + b),
-            Operator.SUB: lambda a, b: limit(a - b),
-            Operator.MUL: lambda a, b: limit(a * b),
-            Operator.DIV: lambda a, b: limit(a / b),
-            Operator.MOD: lambda a, b: limit(qb_mod(a, b)),
-            Operator.INTDIV: lambda a, b: limit(qb_idiv(a, b)),
-            Operator.EXP: lambda a, b: limit(a ** b),
+            Operator.AND: lambda a, b: a & b,
+            Operator.OR: lambda a, b: a | b,
+            Operator.XOR: lambda a, b: a ^ b,
+            Operator.EQV: lambda a, b: ~(a ^ b),
+            Operator.IMP: lambda a, b: ~a | b,
+            Operator.ADD: lambda a, b: a + b,
+            Operator.SUB: lambda a, b: a - b,
+            Operator.MUL: lambda a, b: a * b,
+            Operator.DIV: lambda a, b: a / b,
+            Operator.MOD: qb_mod,
+            Operator.INTDIV: qb_idiv,
+            Operator.EXP: lambda a, b: a ** b,
         }[self.op](left, right)
 
-        return result
+        if isinstance(result, complex) or \
+           not self.type.can_hold(result):
+            raise OverflowError
+
+        return self.type.coerce(result)
 
     def _eval_string(self):
-        return self.left.eval() + self.right.eval()
+        left = self.left.eval()
+        right = self.right.eval()
+        if self.op.is_comparison:
+            result = {
+                Operator.CMP_EQ: left == right,
+                Operator.CMP_NE: left != right,
+                Operator.CMP_LT: left < right,
+                Operator.CMP_GT: left > right,
+                Operator.CMP_LE: left <= right,
+                Operator.CMP_GE: left >= right,
+            }[self.op]
+            return -1 if result else 0
+        return left + right
 
     def _qb_mod(self, a, b):
         a = int(round(a))
@@ -795,8 +822,13 @@ class UnaryOp(Expr):
 
         value = self.arg.eval()
         if self.op == Operator.NOT:
-            value = int(round(value))
-            value = ~value
+            # at run time the operand is converted to the (INTEGER or
+            # LONG) type of the result first
+            if isinstance(value, float):
+                value = round(value)
+            if not self.type.can_hold(value):
+                raise OverflowError
+            value = ~int(value)
         elif self.op == Operator.NEG:
             value = -value
         elif self.op == Operator.PLUS:
@@ -804,17 +836,12 @@ class UnaryOp(Expr):
         else:
             raise InternalError('Unknown unary operator')
 
-        if self.arg.type == Type.INTEGER:
-            max_positive_int = 2**15 - 1
-            max_negative_int = -2**15
-        else:
-            max_positive_int = 2**31 - 1
-            max_negative_int = -2**31
+        # a value that does not fit (like the negation of -32768 in
+        # an INTEGER) is an overflow at run time
+        if not self.type.can_hold(value):
+            raise OverflowError
 
-        if value > max_positive_int or value < max_negative_int:
-            value = max_negative_int
-
-        return value
+        return self.type.coerce(value)
 
 
 class Lvalue(Expr):
